@@ -351,6 +351,32 @@ def fix_too_many_blank_lines(source: str) -> str:
     return source
 
 
+def _is_same_code_in_block(code: str, new_code: str) -> bool:
+    """Determine if code in some block, at its indentation, still means the same as new_code.
+
+    Dedenting and indenting a statement moves the lines of its multi-line strings as well, and
+    what comes after them may end up at another indentation, in another block.
+    """
+    dumps = []
+    for block in (code, new_code):
+        block = re.sub(r"(\A[\s\n]*)(el)(if)", r"\g<1>\g<3>", block, 1)
+        if re.match(r"[ \t]", block.lstrip("\n")):
+            block = "if True:\n" + block
+        try:
+            tree = ast.parse(block)
+        except SyntaxError:
+            return False
+
+        for node in ast.walk(tree):
+            # Docstrings are there to be read, black may lay them out differently
+            if core.match_template(node, ast.Expr(value=ast.Constant(value=str))):
+                node.value.value = " ".join(node.value.value.split())
+
+        dumps.append(ast.dump(tree))
+
+    return dumps[0] == dumps[1]
+
+
 @processing.fix(max_iter=1)
 def fix_line_lengths(source: str, *, max_line_length: int = 100) -> str:
     root = core.parse(source)
@@ -401,7 +427,9 @@ def fix_line_lengths(source: str, *, max_line_length: int = 100) -> str:
             new_code = textwrap.indent(new_code, " " * indent)
 
         new_code = formatting.collapse_trailing_parentheses(new_code)
-        if new_code != formatting.collapse_trailing_parentheses(current_code):
+        if new_code != formatting.collapse_trailing_parentheses(
+            current_code
+        ) and _is_same_code_in_block(source[source_range.start : source_range.end], new_code):
             yield source_range, new_code
             formatted_ranges.add(source_range)
 
